@@ -115,3 +115,28 @@ def expand(e, srt, consts, cache):
         r = e
     cache[k] = (e, r)
     return r
+
+
+def finite_refute_inctx(hyps, goal, axioms=(), sizes=(2, 3, 4), timeout_ms=10000, sort=None):
+    """same as finite_refute but stays in the main z3 context (so the model can evaluate the caller's terms):
+    quantifiers over the id sort are expanded over fresh constants u0..u(n-1) and the sort is closed by
+    the domain-closure axiom  forall x. x = u0 \/ ... \/ x = u(n-1)."""
+    from .tys import Str
+    sort = sort or Str
+    forms = list(axioms) + list(hyps) + [z3.Not(goal)]
+    for n in sizes:
+        us = [z3.Const(f"Str!u{i}", sort) for i in range(n)]
+        cache = {}
+        fs = [expand(f, sort, us, cache) for f in forms]
+        x = z3.Const("x!closure", sort)
+        s2 = z3.Solver()
+        s2.set("timeout", timeout_ms)
+        s2.add(*fs)
+        s2.add(z3.ForAll([x], z3.Or(*[x == u for u in us])))
+        if n > 1:
+            pass
+        r = s2.check()
+        if r == z3.sat:
+            m = s2.model()
+            return model_lines(m), m, None, n, us
+    return None
